@@ -71,6 +71,7 @@ def run(ctx):
     shared_attribute_element_name(ctx)
     repeated_requests(ctx)
     repeated_raw_element_arguments(ctx)
+    unprefixed_namespaces_twins_and_simple_derivations(ctx)
     from harness.props import c07
     c07.handwritten_renderings(ctx)      # (blocks that name their own namespace by prefix / by default / not at all)
     headers_mixing_elements_and_values(ctx)
@@ -514,6 +515,67 @@ def repeated_raw_element_arguments(ctx):
             if got != want:
                 ctx.fail("request differs from what the WSDL prescribes", meta, got, want)
                 break
+
+
+NOPREFIX_WSDL = ('<?xml version="1.0"?><wsdl:definitions targetNamespace="urn:w" xmlns:w="urn:w" xmlns:wsdl="http://schemas.xmlsoap.org/wsdl/" '
+ 'xmlns:soap="http://schemas.xmlsoap.org/wsdl/soap/"><wsdl:types>'
+ '<xs:schema xmlns:xs="%(XS)s" targetNamespace="urn:np:a" elementFormDefault="qualified">'
+ '<xs:complexType name="Money"><xs:simpleContent><xs:extension base="xs:decimal"><xs:attribute name="currency" type="xs:string"/></xs:extension></xs:simpleContent></xs:complexType>'
+ '<xs:complexType name="BigMoney"><xs:simpleContent><xs:extension base="me:Money" xmlns:me="urn:np:a"><xs:attribute name="note" type="xs:string"/></xs:extension></xs:simpleContent></xs:complexType>'
+ '<xs:complexType name="Order"><xs:sequence>'
+ '<xs:element name="billing"><xs:complexType><xs:sequence><xs:element name="contact"><xs:complexType><xs:sequence><xs:element name="ok" type="xs:string"/><xs:element name="code" type="xs:int"/></xs:sequence></xs:complexType></xs:element></xs:sequence></xs:complexType></xs:element>'
+ '<xs:element name="shipping"><xs:complexType><xs:sequence><xs:element name="contact"><xs:complexType><xs:sequence><xs:element name="ok" type="xs:boolean"/><xs:element name="code" type="xs:string" minOccurs="0"/></xs:sequence></xs:complexType></xs:element></xs:sequence></xs:complexType></xs:element>'
+ '</xs:sequence></xs:complexType>'
+ '<xs:element name="Op"><xs:complexType><xs:sequence><xs:element name="order" type="me:Order" xmlns:me="urn:np:a"/>'
+ '<xs:element name="amount" type="me:Money" xmlns:me="urn:np:a"/>'
+ '</xs:sequence></xs:complexType></xs:element></xs:schema>'
+ '<xs:schema xmlns:xs="%(XS)s" targetNamespace="urn:np:b" elementFormDefault="qualified"><xs:element name="Hdr"><xs:complexType><xs:sequence><xs:element name="tok" type="xs:string"/></xs:sequence></xs:complexType></xs:element></xs:schema>'
+ '</wsdl:types>'
+ '<wsdl:message name="In"><wsdl:part name="parameters" element="qa:Op" xmlns:qa="urn:np:a"/></wsdl:message>'
+ '<wsdl:message name="H"><wsdl:part name="h" element="qb:Hdr" xmlns:qb="urn:np:b"/></wsdl:message>'
+ '<wsdl:portType name="PT"><wsdl:operation name="Op"><wsdl:input message="w:In"/></wsdl:operation></wsdl:portType>'
+ '<wsdl:binding name="B" type="w:PT"><soap:binding style="document" transport="http://schemas.xmlsoap.org/soap/http"/>'
+ '<wsdl:operation name="Op"><soap:operation soapAction="op"/><wsdl:input><soap:body use="literal"/><soap:header message="w:H" part="h" use="literal"/></wsdl:input></wsdl:operation></wsdl:binding>'
+ '<wsdl:service name="S"><wsdl:port name="P" binding="w:B"><soap:address location="http://localhost/x"/></wsdl:port></wsdl:service></wsdl:definitions>' % {"XS": "http://www.w3.org/2001/XMLSchema"}).encode()
+
+
+def unprefixed_namespaces_twins_and_simple_derivations(ctx):
+    """A body wrapper and a declared header entry from two schemas no prefix is bound to; two local elements of one
+    name ("contact") with different anonymous types in one argument; a value of a type derived from a simpleContent
+    type by simpleContent extension, given where the base type is declared: each element in its own namespace, each
+    member written by its own declaration, xsi:type naming the derived type."""
+    A, B = "urn:np:a", "urn:np:b"
+    want_h = [[B, "Hdr", None, [], [[B, "tok", "t", [], []]]]]
+    want_b = [[A, "Op", None, [], [
+        [A, "order", None, [], [[A, "billing", None, [], [[A, "contact", None, [], [[A, "ok", "yes", [], []], [A, "code", "7", [], []]]]]],
+                                [A, "shipping", None, [], [[A, "contact", None, [], [[A, "ok", "true", [], []]]]]]]],
+        [A, "amount", "1.5", [["", "currency", "EUR"], ["", "note", "n"], [xmlread.XSI, "type", [A, "BigMoney"]]], []]]]]
+
+    def canon(n):
+        at = sorted([k[0] or "", k[1], (list(xmlread.resolve_qname(n, v)) if k == (xmlread.XSI, "type") else v)]
+                    for k, v in n["attrs"].items())
+        return [n["name"][0], n["name"][1], (n.get("text") or None) if not n["children"] else None, at,
+                [canon(k) for k in n["children"]]]
+    for hv in ({"Hdr": {"tok": "t"}}, ({"tok": "t"},), [{"tok": "t"}]):
+        for unwrap in (True, False):
+            for prefixes in (True, False):
+                meta = {"stream": "unprefixed-namespaces-twins-derivations", "soapheaders": repr(hv), "unwrap": unwrap,
+                        "prefixes": prefixes}
+                ctx.case(common.canon(meta), True)
+                try:
+                    c = wsdlkit.client(NOPREFIX_WSDL, nosend=True, soapheaders=hv, unwrap=unwrap, prefixes=prefixes)
+                    big = c.factory.create("{urn:np:a}BigMoney")
+                    big.value, big._currency, big._note = "1.5", "EUR", "n"
+                    args = dict(order=dict(billing={"contact": {"ok": "yes", "code": 7}},
+                                           shipping={"contact": {"ok": True, "code": None}}), amount=big)
+                    env = wsdlkit.envelope_bytes(c.service.Op(**args) if unwrap else c.service.Op(args))
+                    root = xmlread.parse(env)
+                    got = [[canon(k) for k in xmlread.find1(root, "Header")["children"]],
+                           [canon(k) for k in xmlread.find1(root, "Body")["children"]]]
+                except Exception as e:
+                    got = "%s: %s" % (type(e).__name__, e)
+                if got != [want_h, want_b]:
+                    ctx.fail("request differs from what the WSDL prescribes", meta, got, [want_h, want_b])
 
 
 def tuples_for_repeated_elements(ctx):
